@@ -245,6 +245,9 @@ def finish(run, level, coverage, assumptions, replay_dir_name="replay"):
     known_sigs = {f["signature"]: f for f in kf}
     unknown = []
     seen_known = {}
+    if getattr(run, "replay_sig", None):
+        run.violations = [v for v in run.violations if v["signature"] == run.replay_sig]
+        print("replay: %s" % ("reproduced" if run.violations else "not reproduced on this tree"), flush=True)
     for v in run.violations:
         if v["signature"] in known_sigs:
             seen_known.setdefault(v["signature"], v)
